@@ -274,7 +274,16 @@ impl Layout {
                 Act::SegE => src.push_str(".eseg\n"),
             }
             if let Some((text, bytes)) = item {
-                src.push_str(&format!("{}: {}\n", lname, text));
+                // the label sits on the item's line, on its own line, or is followed by a second
+                // label on its own line (both name the same position)
+                match idx % 3 {
+                    0 => src.push_str(&format!("{}: {}\n", lname, text)),
+                    1 => src.push_str(&format!("{}:\n    {}\n", lname, text)),
+                    _ => {
+                        src.push_str(&format!("{}:\n{}_twin: {}\n", lname, lname, text));
+                        labels.push((format!("{}_twin", lname), at));
+                    }
+                }
                 labels.push((lname, at));
                 match s.seg {
                     Seg::C => {
@@ -292,6 +301,11 @@ impl Layout {
             }
             s = self.step(&s, a).unwrap();
         }
+        // a label with no item after it in its segment names the segment's location counter
+        let end_seg = s.seg;
+        let end_at = s.pc[end_seg as usize];
+        src.push_str("end_of_trace_lbl:\n");
+        labels.push(("end_of_trace_lbl".to_string(), end_at));
         // epilogue: the observation table (pass-2 position counter, pass-1 label values)
         src.push_str(".cseg\n.dw pc\n");
         let at = s.pc[0];
